@@ -9,6 +9,7 @@ import DesyncModel.Inv.WakeReach
 import DesyncModel.Inv.WakeTReach
 import DesyncModel.Inv.Latch
 import DesyncModel.Inv.ShapeReach
+import DesyncModel.Inv.Reg
 
 namespace Desync.C06
 open Desync Gen
@@ -212,6 +213,28 @@ example : ShapeInv { initState 1 0 1 with latches := [(.willWake, some (.double 
     match l with
     | 0 => simp at hl; obtain ⟨rfl, rfl⟩ := hl; rfl
     | n + 1 => simp at hl
+
+/-! ### the registration itself: a suspended operation's waker is for its own queue -/
+
+/-- **The waker a suspended operation has registered with the event it awaits belongs to the operation's own queue**, in every
+reachable state (every kind of call; `RegInv`, inductive over all program counters and environment steps, using the job
+invariant of C01 for "the context that polls a job works for the job's queue"): it is the `WakeQueue` waker of the queue the
+operation was scheduled on (pool-thread context), a `WakeThread` waker for that queue (a caller inside `sync`), or a
+`DrainWaker` latch (polling task; `latch_holds_queue_or_double_waker` says where that leads).  So the wake-up of a suspended
+operation can never land on another object's queue. -/
+theorem registered_waker_targets_own_queue {s : State} (hr : Reachable s) {j : Nat} {jb : Job} {w : Waker}
+    (hj : s.jobs[j]? = some jb) (hreg : jb.reg = some w) :
+    w = .queue jb.q ∨ (∃ t, w = .thread jb.q t) ∨ (∃ l, w = .latch l) := by
+  have h := regInv_reachable hr j jb w hj hreg
+  cases w <;> simp_all [Waker.forQ]
+
+/-- non-vacuity: a suspended operation of queue 1 with the queue's waker registered -/
+example : RegInv { initState 2 1 1 with
+    jobs := [{ q := 1, kind := .fut 0 (some 0) 0, ph := .queued, begun := true, ended := false, reg := some (.queue 1) }] } := by
+  intro j jb w hj hr
+  match j with
+  | 0 => simp at hj; subst hj; simp at hr; subst hr; rfl
+  | n + 1 => simp at hj
 
 /-- the executions the `ReachableNT` theorems above quantify over never enter the task-context code -/
 theorem no_task_context_without_polling {s : State} (hr : ReachableNT s) (b : Nat) : (s.pcAt b).noTask = true :=
